@@ -89,6 +89,7 @@ func c01Cells(path string, content []byte, other []byte) []c01Cell {
 				add("size-1", content, h, int64(n-1), "reject", splitChunks(content))
 				add("size+1", content, h, int64(n+1), "reject", splitChunks(content))
 				add("hash-other", content, vlib.Sha(other), int64(n), "reject", splitChunks(content))
+				add("hash-of-the-empty-blob", content, emptySha, int64(n), "reject", splitChunks(content))
 				add("hash-upper", content, upper(h), int64(n), "reject", splitChunks(content))
 				add("hash-63", content, h[:63], int64(n), "reject", splitChunks(content))
 			}
@@ -109,6 +110,7 @@ func c01Cells(path string, content []byte, other []byte) []c01Cell {
 			cells = append(cells, mk("size-1", content, h, int64(n-1), "reject"))
 		}
 		cells = append(cells, mk("hash-other", content, vlib.Sha(other), int64(n), "reject"))
+		cells = append(cells, mk("hash-of-the-empty-blob", content, emptySha, int64(n), "reject"))
 		cells = append(cells, mk("hash-upper", content, upper(h), int64(n), "reject"))
 		return cells
 	case "fetch", "fetch_nosri":
@@ -148,6 +150,7 @@ func c01Cells(path string, content []byte, other []byte) []c01Cell {
 	cells = append(cells, mk("append-1MiB", append(append([]byte(nil), content...), vlib.Bytes("pad", 1<<20, false)...), h, int64(n), "reject"))
 	cells = append(cells, mk("size+1", content, h, int64(n+1), "reject"))
 	cells = append(cells, mk("hash-other", content, vlib.Sha(other), int64(n), "reject"))
+	cells = append(cells, mk("hash-of-the-empty-blob", content, emptySha, int64(n), "reject"))
 	cells = append(cells, mk("hash-upper", content, upper(h), int64(n), "reject"))
 	cells = append(cells, mk("hash-63", content, h[:63], int64(n), "reject"))
 	uc := mk("compressor-unsupported", content, h, int64(n), "reject")
@@ -379,7 +382,7 @@ func c01Run(rep *vlib.Report, f *fx, mode, impl, path string, n int, kind string
 	}
 	// the claimed digest must not have become present
 	f.settle()
-	if len(cell.req.hash) == 64 && cell.req.hash == strings.ToLower(cell.req.hash) && cell.req.size >= 0 {
+	if len(cell.req.hash) == 64 && cell.req.hash == strings.ToLower(cell.req.hash) && cell.req.size >= 0 && cell.req.hash != emptySha {
 		fm, _, err := f.present(cell.req.hash, cell.req.size)
 		if err == nil && fm {
 			rep.Violate(key+" rejected upload made the claimed digest present", fmt.Sprintf("%s: answered %s but FindMissingBlobs now reports %s/%d present", id, res.status, short(cell.req.hash), cell.req.size), replay)
